@@ -574,6 +574,8 @@ func scenariosC08() []scenario {
 		// Heartbeat / join timers lie beyond the latest instant a (delayed) request can still be in flight: a request
 		// waiting for the loop together with a timer that has fired would leave the pick to Go's select
 		{name: "full-change-state-pending", lcs: []lcSpec{{id: "a", joinAfter: 6250 * time.Millisecond, heartbeat: 9250 * time.Millisecond}}, actions: []action{{at: 500 * time.Millisecond, kind: "change-state", who: "a", arg: "LEAVING"}, {at: 1 * time.Second, kind: "change-state", who: "a", arg: "JOINING"}, {at: 1500 * time.Millisecond, kind: "change-state", who: "a", arg: "LEAVING"}, {at: 2 * time.Second, kind: "change-state", who: "a", arg: "PENDING"}}, horizon: 9 * time.Second},
+		// an external PENDING→ACTIVE (hand-over style) before the join timer: when the timer fires the lifecycler is no longer pending
+		{name: "full-change-state-early-active", lcs: []lcSpec{{id: "a", joinAfter: 6250 * time.Millisecond, observe: 2 * time.Second, heartbeat: 9250 * time.Millisecond}}, actions: []action{{at: 1 * time.Second, kind: "change-state", who: "a", arg: "ACTIVE"}}, horizon: 9 * time.Second},
 		{name: "full-change-state-active", lcs: []lcSpec{{id: "a", heartbeat: 7250 * time.Millisecond}}, actions: []action{{at: 1 * time.Second, kind: "change-state", who: "a", arg: "PENDING"}, {at: 1500 * time.Millisecond, kind: "change-state", who: "a", arg: "JOINING"}, {at: 2 * time.Second, kind: "change-state", who: "a", arg: "LEAVING"}, {at: 2500 * time.Millisecond, kind: "change-state", who: "a", arg: "ACTIVE"}, {at: 4 * time.Second, kind: "change-state", who: "a", arg: "PENDING"}}, horizon: 8 * time.Second},
 		// readiness with ring-health: a member that shows up (PENDING, then JOINING) after the probed lifecycler's last own write
 		{name: "ready-vs-late-joiner", lcs: []lcSpec{{id: "a", ringHealth: true}, {id: "b", startAt: 2 * time.Second, joinAfter: 1500 * time.Millisecond, observe: 2 * time.Second}}, actions: []action{{at: 2500 * time.Millisecond, kind: "ready", who: "a"}, {at: 4 * time.Second, kind: "ready", who: "a"}, {at: 7 * time.Second, kind: "ready", who: "a"}}, horizon: 9 * time.Second},
